@@ -137,7 +137,8 @@ def check(pm: ProgramModel, ctx: Ctx) -> None:
              "negation constraints")
     # one identifier per entity -----------------------------------------------------------------------------
     from ..codec import name_model
-    for cls_ in ("plain", "space", "punct", "unicode", "digit-first", "underscore-first", "digits", "case-variant", "opword", "keyword", "tab-inside", "double-blank"):
+    for cls_ in ("plain", "space", "punct", "unicode", "digit-first", "underscore-first", "digits", "case-variant", "opword", "keyword", "tab-inside", "double-blank",
+                 "apostrophes", "dot-inside", "dot-and-punct", "leading-blank", "trailing-blank", "number-like", "decomposed-accent"):
         nm = NAME_CLASSES[cls_]
         validate(ctx, pm, "C11-ONEENC", f"feature-name:{cls_}", name_model(mb, nm), f"feature named {nm!r}")
     wc = pm.cls(W)
